@@ -9,7 +9,7 @@ import SkNet.Lemmas.Complete
 import SkNet.Lemmas.BreakInv
 import SkNet.Lemmas.Closure
 
-namespace SkNet.Forest
+namespace SkNet.UForest
 open SkNet SkNet.Connectivity SkNet.Cycles
 
 /-! ### the undirected graph of an edge list -/
@@ -88,9 +88,9 @@ theorem reach_cons_iff {u v : Nat} {es : List (Nat × Nat)} {x y : Nat} :
     · exact ((hmono h1).trans huv).trans (hmono h2)
     · exact ((hmono h1).trans hvu).trans (hmono h2)
 
-end SkNet.Forest
+end SkNet.UForest
 
-namespace SkNet.Forest
+namespace SkNet.UForest
 open SkNet SkNet.Connectivity SkNet.Cycles
 
 /-! ### the union-find labelling -/
@@ -200,9 +200,9 @@ theorem uf_spec (n : Nat) (es : List (Nat × Nat)) (hes : ∀ e ∈ es, e.1 < n 
           · exact absurd (eyv.mpr (sym h4)) h2
           · exact absurd (exv.mpr h3) h1
 
-end SkNet.Forest
+end SkNet.UForest
 
-namespace SkNet.Forest
+namespace SkNet.UForest
 open SkNet SkNet.Connectivity SkNet.Cycles
 
 /-! ### counting labels -/
@@ -268,9 +268,9 @@ theorem count_eq (n : Nat) (es : List (Nat × Nat)) (hes : ∀ e ∈ es, e.1 < n
     · simp only [hcase, ↓reduceIte]; omega
     · simp only [hcase, ↓reduceIte]; omega
 
-end SkNet.Forest
+end SkNet.UForest
 
-namespace SkNet.Forest
+namespace SkNet.UForest
 open SkNet SkNet.Connectivity SkNet.Cycles
 
 /-! ### closing edges and cycles -/
@@ -353,9 +353,9 @@ theorem cycle_of_closing {n : Nat} {es : List (Nat × Nat)} (hok : EdgesOK n es)
           simp only [linkB, hP.last, List.head?_cons, List.contains_iff_mem]
           exact adjOf_cons_mem.mpr (Or.inr (Or.inr ⟨rfl, rfl⟩))
 
-end SkNet.Forest
+end SkNet.UForest
 
-namespace SkNet.Forest
+namespace SkNet.UForest
 open SkNet SkNet.Connectivity SkNet.Cycles
 
 /-- a chain of the graph with one more edge `u — v` is a chain of the old graph, or passes through the new edge -/
@@ -454,9 +454,9 @@ theorem reach_of_cycle_through_new {n : Nat} {x y u v : Nat} {es : List (Nat × 
       · exact chain_reach_head z _ hold x hx'
     exact (Reach.edge hedge).trans hzx'
 
-end SkNet.Forest
+end SkNet.UForest
 
-namespace SkNet.Forest
+namespace SkNet.UForest
 open SkNet SkNet.Connectivity SkNet.Cycles
 
 theorem append_singleton_inj {a c : List Nat} {b d : Nat} (h : a ++ [b] = c ++ [d]) : a = c ∧ b = d := by
@@ -541,9 +541,9 @@ theorem closing_of_cycle {n : Nat} {es : List (Nat × Nat)} (hok : EdgesOK n es)
             rw [this, List.getLast?_append]
             rfl)
 
-end SkNet.Forest
+end SkNet.UForest
 
-namespace SkNet.Forest
+namespace SkNet.UForest
 open SkNet SkNet.Connectivity SkNet.Cycles
 
 /-! ### two labellings of the same relation have as many labels -/
@@ -601,9 +601,9 @@ theorem reach_congr {n : Nat} {adj1 adj2 : Nat → List Nat} (hwf : ∀ u, u < n
   | refl => exact Reach.refl _
   | tail hp he ih => exact Reach.tail ih (h _ (Reach.lt hwf hp hu) _ he)
 
-end SkNet.Forest
+end SkNet.UForest
 
-namespace SkNet.Forest
+namespace SkNet.UForest
 open SkNet SkNet.Connectivity SkNet.Cycles
 
 /-! ### the edge list of a symmetric adjacency -/
@@ -739,9 +739,9 @@ theorem adjOf_edgesOf {n : Nat} {adj : Nat → List Nat} (h : UOK n adj) {x : Na
     · right; exact ⟨hyn, h.sym x hx y hy, hlt⟩
     · left; exact ⟨hx, hy, hgt⟩
 
-end SkNet.Forest
+end SkNet.UForest
 
-namespace SkNet.Forest
+namespace SkNet.UForest
 open SkNet SkNet.Connectivity SkNet.Cycles
 
 theorem isChain_mono_on {adj adj' : Nat → List Nat} (l : List Nat)
@@ -819,9 +819,9 @@ theorem components_eq_iff_forest {n : Nat} {adj : Nat → List Nat} (h : UOK n a
       exact hno ⟨C, isSimpleCycle_mono_on (fun u hu v hv => (adjOf_edgesOf h hu v).mp hv) hC, hlen⟩
     omega
 
-end SkNet.Forest
+end SkNet.UForest
 
-namespace SkNet.Forest
+namespace SkNet.UForest
 open SkNet SkNet.Connectivity SkNet.Cycles
 
 /-! ### graphs with self-loops: the criterion as `get_cycles` uses it -/
@@ -922,9 +922,9 @@ theorem length_dropLoop (u : Nat) (l : List Nat) (hnd : l.Nodup) :
       simp only [List.filter_cons, hb, ↓reduceIte, List.length_cons]
       omega
 
-end SkNet.Forest
+end SkNet.UForest
 
-namespace SkNet.Forest
+namespace SkNet.UForest
 open SkNet SkNet.Connectivity SkNet.Cycles
 
 /-- the counting identity behind the criterion: `#labels + #edges = n + k` where `k = 0` exactly for a forest -/
@@ -1021,4 +1021,4 @@ theorem no_cycle_of_criterion {n : Nat} {adj : Nat → List Nat}
   intro ⟨C, hC, hlen⟩
   exact (hk0.mp hk') ⟨C, simpleCycle_dropLoops hC hlen, hlen⟩
 
-end SkNet.Forest
+end SkNet.UForest
